@@ -62,6 +62,7 @@ func runC01(c *Ctx) {
 	r.Rule("R5-session-writers", "RequestScope.Session is stored only by the three loaders, with result #0 of a verified getter", 3)
 	r.Rule("R6-getters-verified", "session getters return non-nil only after their verification succeeded", 4)
 	r.Rule("R7-store-validation", "cookie Load / ticket decode succeed only with Validate ok; Validate ok needs checkSignature; checkSignature needs checkHmac; checkHmac needs hmac.Equal", 5)
+	r.Rule("R9-bypass-input", "the skip-auth decision consumes only the guarded, query-free request path (shared with C15.R1)", 1)
 	r.Rule("R8-route-table", "every route whose handler consumes the session is registered through sessionChain; preAuthChain is installed on the root router", 9)
 
 	need, gas := authSessionFact(c, "R1-sink-gating")
@@ -199,6 +200,8 @@ func runC01(c *Ctx) {
 			checkAuthenticatedReturn(c, "R3-authenticated-returns", p, isAllowed, validatorF, emailF, scopeSessF, authorizeM, getScope)
 		})
 	}
+
+	checkBypassOperand(c, "R9-bypass-input")
 
 	// ---- R4: IsAllowedRequest -----------------------------------------------------------------------
 	runC01R4(c, "R4-bypass-entry", isAllowed, gas)
